@@ -131,6 +131,19 @@ def evaluate(case):
     added2 = np.asarray(Gon2, dtype=float) - np.asarray(Goff2, dtype=float)
     if exceeds(np.abs(added2 - added)[pos].max(initial=0.0), 1e-9 * max(float(np.abs(Goff).max()), float(np.abs(Goff2).max()), sc)):
         fails.append("added term changes when interior data change (must depend on Qmin, S(Qmin), Qmax only)")
+    # the model term is odd in r: on the mirrored grid -r the added term is the negative
+    if pos.any():
+        rn = -r[pos][::-1]
+        with np.errstate(all="ignore"):
+            n_on = np.asarray(fn(q, y, rn, OmittedXrangeCorrection=True, **kw)[1], dtype=float)
+            n_off = np.asarray(fn(q, y, rn, **kw)[1], dtype=float)
+            d_pos = (np.asarray(w_on, dtype=float) - np.asarray(w_off, dtype=float))[pos][::-1]
+        if out == "G":
+            d_neg = n_on - n_off
+            okn = np.isfinite(d_neg) & np.isfinite(d_pos)
+            if okn.any() and exceeds(np.abs(d_neg + d_pos)[okn].max(), 1e-9 * max(float(np.abs(d_pos[okn]).max()), 1e-300) + 1e-12 * float(np.abs(Goff).max())):
+                j = int(np.argmax(np.abs(d_neg + d_pos) * okn))
+                fails.append(f"{inp}_to_G: the added term at r={rn[j]!r} is {d_neg[j]!r}, minus the term at r={-rn[j]!r} is {-d_pos[j]!r} (the transform of the linear-to-zero model is odd in r)")
     # the added term at an output point does not depend on where that point stands in the r grid (descending, or 0 in the middle)
     if len(r) >= 3:
         perm = np.concatenate([np.arange(1, len(r))[::-1], [0]]) if len(r) % 2 else np.roll(np.arange(len(r)), len(r) // 2)
